@@ -587,6 +587,16 @@ def main(rec):
         rec.merge_stats(rr["stats"])
         for v in rr["violations"]:
             rec.violation(v["mech"], v["detail"], c)
+    # prototypes emitted by the whole pipeline for cv / pointer / reference structures
+    pc = [{"name": "proto-" + T_.replace(" ", "_"), "T": T_} for T_ in (["int", "double", "long", "unsigned int", "float", "short"] if thorough else ["int", "double"])]
+    pres = pool.run_cases("vf.checks.c09", pc, func="run_prototypes", timeout=600)
+    for c, rr in zip(pc, pres):
+        if "stats" not in rr:
+            workloads.bad_run(rec, c, rr)
+            continue
+        rec.merge_stats(rr["stats"])
+        for v in rr["violations"]:
+            rec.violation(v["mech"], v["detail"], c)
     rec.distinct_override = rec.counters.get("accepted", 0) + rec.counters.get("online_roundtrips", 0)
     if rec.counters.get("gxx_asserts", 0) == 0:
         rec.inconclusive = "no g++ assertion was generated"
@@ -773,6 +783,103 @@ def run_qualified(case):
             if q.returncode != 0:
                 w_, m_ = engine.first_error(q.stderr)
                 res["violations"].append({"mech": "qualified:wrapper-does-not-compile:%s" % m_, "detail": "%s %s\n%s" % (case["name"], f, q.stderr[:1500])})
+        return res
+    finally:
+        if cwd:
+            common.rmtree(cwd)
+
+
+PROTO_PARAMS = ["{T} a", "const {T} a", "{T} *a", "const {T} *a", "{T} * const a", "const {T} * const a", "{T} &a", "const {T} &a",
+                "{T} **a +intent(in)", "const {T} **a +intent(in)", "{T} * const *a +intent(in)", "const {T} * const *a +intent(in)",
+                "volatile {T} *a", "const volatile {T} *a", "{T} * volatile a"]
+PROTO_RESULTS = ["{T}", "{T} *", "const {T} *", "{T} &", "const {T} &"]
+PROTO_MEMBERS = ["{T} m{k}", "const {T} *m{k}", "{T} *m{k}", "const {T} * const *m{k}", "{T} **m{k}", "{T} * const m{k} +readonly"]
+
+
+def run_prototypes(case):
+    """The C prototypes the whole pipeline emits (statement tables included) for parameters, results and class member
+    accessors over the cv / pointer / reference structures: each must denote the declared type, a reference becoming a
+    pointer (its documented C counterpart)."""
+    from .. import shroudrun, engine
+    import subprocess
+    T = case["T"]
+    res = {"violations": [], "stats": {}, "name": case["name"]}
+    hdr, decls, asserts = ["#ifndef PRO_HPP", "#define PRO_HPP"], [], []
+    def cside(t):
+        return t.replace("&", "*")
+    k = 0
+    for ptxt in PROTO_PARAMS:
+        p = ptxt.format(T=T)
+        plain = p.split(" +")[0]
+        ptype = re.sub(r"\ba$", "", plain).strip()
+        hdr.append("void pf%d(%s);" % (k, plain))
+        decls.append({"decl": "void pf%d(%s)" % (k, p)})
+        asserts.append(("PRO_pf%d" % k, "void(%s)" % cside(ptype), "parameter:" + ptxt.split(" +")[0].replace("{T}", "T")))
+        k += 1
+    for rtxt in PROTO_RESULTS:
+        r_ = rtxt.format(T=T)
+        hdr.append("%s rf%d(int i);" % (r_, k))
+        # +deref(raw): the pointer itself is the C result
+        decls.append({"decl": "%s rf%d(int i)%s" % (r_, k, " +deref(raw)" if ("*" in r_ or "&" in r_) else "")})
+        asserts.append(("PRO_rf%d" % k, "%s(int)" % cside(r_), "result:" + rtxt.replace("{T}", "T")))
+        k += 1
+    hdr.append("class Holder { public: Holder();")
+    cd = [{"decl": "Holder()"}]
+    for mi, mtxt in enumerate(PROTO_MEMBERS):
+        m = mtxt.format(T=T, k=mi)
+        plain = m.split(" +")[0]
+        mtype = re.sub(r"\bm%d$" % mi, "", plain).strip()
+        hdr.append("  %s;" % plain)
+        cd.append({"decl": m + ";"})
+        asserts.append(("PRO_Holder_get_m%d" % mi, "%s(PRO_Holder *)" % mtype, "member-getter:" + mtxt.split(" +")[0].replace("{T}", "T").replace("m{k}", "m")))
+        if "readonly" not in m:
+            asserts.append(("PRO_Holder_set_m%d" % mi, "void(PRO_Holder *, %s)" % mtype, "member-setter:" + mtxt.replace("{T}", "T").replace("m{k}", "m")))
+    hdr.append("};")
+    hdr.append("#endif")
+    y = {"library": "pro", "cxx_header": "pro.hpp", "language": "c++",
+         "options": {"wrap_c": True, "wrap_fortran": False, "wrap_python": False, "wrap_lua": False}, "declarations": decls + [{"decl": "class Holder", "declarations": cd}]}
+    sp = {"name": case["name"], "files": {"work/pro.yaml": workloads.dump_yaml(y)}, "dirs": ["out"],
+          "argv": ["--outdir", "out", "--logdir", "out", "work/pro.yaml"], "monitors": [], "keep": True}
+    rr = shroudrun.run(sp)
+    cwd = rr.get("cwd")
+    try:
+        if rr.get("exc") or rr.get("exit") != 0:
+            k_, t_ = engine.reject_mech(rr)
+            res["violations"].append({"mech": "prototypes:shroud-rejects:" + k_, "detail": "%s: %s" % (case["name"], t_)})
+            return res
+        out = os.path.join(cwd, "out")
+        open(os.path.join(out, "pro.hpp"), "w").write("\n".join(hdr) + "\n")
+        heads = sorted(f for f in os.listdir(out) if f.startswith("wrap") and f.endswith(".h"))
+        alltext = "\n".join(open(os.path.join(out, h)).read() for h in heads)
+        chk = ['#include <type_traits>', '#include "pro.hpp"'] + ['#include "%s"' % h for h in heads]
+        live = []
+        for i, (cname, ftype, what) in enumerate(asserts):
+            if not re.search(r"\b%s\(" % re.escape(cname), alltext):
+                res["stats"]["prototypes_not_emitted"] = res["stats"].get("prototypes_not_emitted", 0) + 1
+                continue
+            live.append(i)
+            chk.append('static_assert(std::is_same<decltype(%s), %s>::value, "VFASSERT %d");' % (cname, ftype, i))
+        open(os.path.join(out, "chk.cpp"), "w").write("\n".join(chk) + "\n")
+        p = subprocess.run(["g++", "-std=c++11", "-fsyntax-only", "-w", "-I", ".", "chk.cpp"], cwd=out, capture_output=True, text=True, timeout=300)
+        res["stats"]["emitted_prototypes_checked"] = len(live)
+        failed = sorted({int(x) for x in re.findall(r"VFASSERT (\d+)", p.stderr)})
+        otherr = [ln for ln in p.stderr.split("\n") if "error" in ln and "VFASSERT" not in ln and "static assertion" not in ln][:4]
+        for i in failed:
+            cname, ftype, what = asserts[i]
+            proto = re.search(r"[^;{}]*\b%s\([^;]*;" % re.escape(cname), alltext)
+            res["violations"].append({"mech": "emitted-c-prototype-denotes-another-type:%s" % what,
+                                      "detail": "%s [T=%s]: %s is declared %r; the declaration denotes %s" % (
+                                          case["name"], T, cname, " ".join((proto.group(0) if proto else "?").split()), ftype)})
+        if otherr and not failed:
+            res["violations"].append({"mech": "prototypes:checker-does-not-compile", "detail": "%s\n%s" % (case["name"], "\n".join(otherr))})
+        for f in sorted(x for x in os.listdir(out) if x.startswith("wrap") and x.endswith(".cpp")):
+            q = subprocess.run(["g++", "-std=c++11", "-fsyntax-only", "-w", "-I", ".", f], cwd=out, capture_output=True, text=True, timeout=300)
+            if q.returncode != 0:
+                errs = [ln for ln in q.stderr.split("\n") if "error:" in ln]
+                fnames = sorted(set(re.findall(r"In function '[^']*?(PRO_\w+)", q.stderr) + re.findall(r"In function ‘[^’]*?(PRO_\w+)", q.stderr)))
+                whats = sorted({w for c_, t_, w in asserts if c_ in fnames})
+                res["violations"].append({"mech": "emitted-c-wrapper-does-not-compile:%s" % ("|".join(whats)[:80] or "?"),
+                                          "detail": "%s [T=%s] %s\n%s" % (case["name"], T, f, q.stderr[:1800])})
         return res
     finally:
         if cwd:
